@@ -229,6 +229,7 @@ fn strat(t: Tier) -> proptest::strategy::BoxedStrategy<RawCase> {
 
 pub fn def() -> PropertyDef {
     PropertyDef {
+        fuzz_targets: &["c04_history"],
         id: "C06",
         level: "exploration",
         rule: "C04-style histories with finish attempts at arbitrary positions (first, repeated, followed by more writes), all five finish entry points, \
